@@ -343,6 +343,9 @@ type Proto struct {
 	mu      sync.Mutex
 	FailNow bool
 	Emits   []Emit
+	// Gate, when set, is called at the start of every delivery (before anything is recorded): a
+	// harness can park a delivery there, which is where the service holds the peer's lock
+	Gate func(peer boson.Address)
 }
 
 var ErrDelivery = errors.New("trafx: delivery failed")
@@ -350,6 +353,12 @@ var ErrDelivery = errors.New("trafx: delivery failed")
 func (p *Proto) SetFail(f bool) { p.mu.Lock(); p.FailNow = f; p.mu.Unlock() }
 
 func (p *Proto) EmitCheque(ctx context.Context, peer boson.Address, c *chequePkg.SignedCheque) error {
+	p.mu.Lock()
+	g := p.Gate
+	p.mu.Unlock()
+	if g != nil {
+		g(peer)
+	}
 	p.mu.Lock()
 	defer p.mu.Unlock()
 	cp := chequePkg.SignedCheque{Cheque: chequePkg.Cheque{Recipient: c.Recipient, Beneficiary: c.Beneficiary}, Signature: append([]byte{}, c.Signature...)}
